@@ -1,9 +1,12 @@
 package props
 
 import (
+	"encoding/json"
 	"fmt"
 	"math/big"
+	"math/rand"
 	"strconv"
+	"sync"
 
 	"github.com/consensys/gnark/frontend"
 	gl "github.com/wormhole-foundation/example-near-light-client/goldilocks"
@@ -165,6 +168,7 @@ func init() {
 				for _, sys := range []string{"r1cs", "scs"} {
 					cs = append(cs, fw.Case{ID: "constops/" + sys, Kind: "constopscompiled", P: map[string]any{"sys": sys}})
 				}
+				cs = append(cs, fw.Case{ID: "race/solver", Kind: "race", P: map[string]any{}})
 				ns := 12
 				if !ctx.Quick {
 					ns = 200
@@ -198,6 +202,29 @@ func init() {
 					return fw.Outcome{}, false
 				}
 				switch c.Kind {
+				case "race":
+					reps := 4
+					if !ctx.Quick {
+						reps = 30
+					}
+					reports, work, err := runRaceBinary(reps, "solver")
+					if err != nil {
+						return fw.Inconcl(err.Error())
+					}
+					if reports > 0 {
+						return fw.Violate("data_race_in_hint_functions", fmt.Sprintf("%d race detector reports while gnark's solver ran the repository's hint functions concurrently", reports))
+					}
+					if v, ok := work["honest_witness_rejected"].(float64); ok && v > 0 {
+						return fw.Violate("solver_rejects_honest_witness_under_concurrency", fmt.Sprintf("%d of the solver runs rejected an honest witness", int(v)))
+					}
+					if v, ok := work["solver_runs"].(float64); ok && v > 0 {
+						o.Add("solver_runs_under_race_detector", int(v))
+						o.Events += int(v) * 192
+					} else {
+						return fw.Inconcl(fmt.Sprintf("race workload reported nothing: %v", work))
+					}
+					o.Sample = map[string]any{"race_build": work, "reports": reports}
+					return o
 				case "constops", "constopscompiled":
 					consts := []uint64{0, 1, 2, 3, 1<<16 - 1, 1 << 16, 1<<16 + 1, 1<<32 - 1, 1 << 32, 1<<32 + 1, 1 << 48, 1<<48 + 1, 1 << 63, P - (1 << 32), P - 2, P - 1}
 					extremes := []uint64{0, 1, P - 1, P - 2, 1 << 32, P - (1 << 32)}
@@ -441,4 +468,56 @@ func init() {
 			},
 		}
 	})
+}
+
+// RaceSolver: the repository's hint functions run inside gnark's real solver, which solves
+// independent instructions of one level from several goroutines. A compiled circuit with many
+// independent inversions / multiply-adds / reductions is solved repeatedly (also from several
+// goroutines at once) under the race detector; every honest witness must be accepted.
+func RaceSolver(reps int) {
+	const n = 192
+	fn := func(api frontend.API, in []frontend.Variable) []frontend.Variable {
+		g := gl.New(api)
+		out := make([]frontend.Variable, 0, 3*n)
+		for i := 0; i < n; i++ {
+			a, b := gl.NewVariable(in[2*i]), gl.NewVariable(in[2*i+1])
+			inv, _ := g.Inverse(a)
+			out = append(out, inv.Limb, g.MulAdd(a, b, a).Limb, g.Reduce(g.MulNoReduce(a, b)).Limb)
+		}
+		return out
+	}
+	cc, err := gadget.Compile("r1cs", fn, 2*n, 3*n, gadget.PadCommit, nil)
+	if err != nil {
+		fmt.Println("RACEWORK {\"error\": \"compile\"}")
+		return
+	}
+	solves, failed := 0, 0
+	var mu sync.Mutex
+	var wg sync.WaitGroup
+	for g := 0; g < 3; g++ {
+		wg.Add(1)
+		go func(g int) {
+			defer wg.Done()
+			r := rand.New(rand.NewSource(int64(1000 + g)))
+			for k := 0; k < reps; k++ {
+				in := make([]*big.Int, 2*n)
+				outs := make([]*big.Int, 0, 3*n)
+				for i := 0; i < n; i++ {
+					a, b := 1+randGL(r)%(P-1), randGL(r)
+					in[2*i], in[2*i+1] = bu(a), bu(b)
+					outs = append(outs, bu(ref.Inv(a)), bu(ref.Add(ref.Mul(a, b), a)), bu(ref.Mul(a, b)))
+				}
+				err := cc.Solve(in, outs)
+				mu.Lock()
+				solves++
+				if err != nil {
+					failed++
+				}
+				mu.Unlock()
+			}
+		}(g)
+	}
+	wg.Wait()
+	b, _ := json.Marshal(map[string]any{"solver_runs": solves, "honest_witness_rejected": failed, "independent_inversions_per_run": n})
+	fmt.Println("RACEWORK " + string(b))
 }
